@@ -49,9 +49,42 @@ def rule_fwd(prog, rep, tier, scope=None, accepted=None):
         if not isinstance(call.func, (ast.Name, ast.Attribute)):
             continue
         tg = [t for t in prog.resolve_expr_fn(call.func, call) if isinstance(t, FunctionInfo)]
-        if len(tg) != 1 or not isinstance(tg[0].node, ast.FunctionDef):
+        if not tg and isinstance(call.func, ast.Name):
+            # a local bound to one of several functions (`parser = function` / `parser = class_`): every one may be called
+            b = prog.lookup(call.func.id, call)
+            if b[0] == "local" and isinstance(b[1], (ast.FunctionDef, ast.AsyncFunctionDef)):
+                defs = [n_.value for n_ in ast.walk(b[1]) if isinstance(n_, ast.Assign) and any(isinstance(t_, ast.Name) and t_.id == call.func.id for t_ in n_.targets)]
+                cand = [t_ for d in defs if isinstance(d, (ast.Name, ast.Attribute)) for t_ in prog.resolve_expr_fn(d, d) if isinstance(t_, FunctionInfo)]
+                if defs and len(cand) == len(defs):
+                    tg = cand
+        tg = [t for t in tg if isinstance(t.node, ast.FunctionDef)]
+        if not tg or (len(tg) != 1 and not isinstance(call.func, ast.Name)):
             continue
-        t = tg[0]
+        for t in tg:
+            n += _judge(prog, rep, call, fn, t, accepted)
+    rep.ob("FWD", "%d call sites with a same-named defaulted option examined" % n, "holds" if not any(f_.rule == "FWD" for f_ in rep.findings) else "violation", "", "")
+
+
+def _on_live_object_path(prog, call, fn):
+    """is the call inside a block (if-body, or the whole function) that reads a live object's source with inspect?"""
+    def has_inspect(nodes):
+        return any(isinstance(c, ast.Call) and isinstance(c.func, (ast.Name, ast.Attribute)) and prog.ext_name(c.func, c) in ("inspect.getsource", "inspect.signature", "inspect.getsourcelines")
+                   for nd in nodes for c in ast.walk(nd))
+    child, p = call, getattr(call, "_parent", None)
+    while p is not None:
+        if isinstance(p, ast.If):
+            blk = p.body if any(child is s_ for s_ in p.body) else (p.orelse if any(child is s_ for s_ in p.orelse) else None)
+            if blk is not None and has_inspect(blk):
+                return True
+        if isinstance(p, (ast.FunctionDef, ast.AsyncFunctionDef)):
+            return has_inspect(p.body)
+        child, p = p, getattr(p, "_parent", None)
+    return False
+
+
+def _judge(prog, rep, call, fn, t, accepted):
+    n = 0
+    if True:
         # the caller's own options: parameters of the enclosing named functions that are not rebound there
         visible = {}
         f = fn
@@ -84,8 +117,13 @@ def rule_fwd(prog, rep, tier, scope=None, accepted=None):
             if (where, construct) in accepted:
                 rep.ob("FWD", inst, "accepted", loc(prog, call), accepted[(where, construct)])
                 continue
+            if _on_live_object_path(prog, call, fn):
+                rep.ob("FWD", inst, "accepted", loc(prog, call),
+                       "live-object path (the block obtains the source with inspect.getsource / inspect.signature): outside the claimed properties' domains, "
+                       "which observe the parsers on syntax trees; noted in DESIGN")
+                continue
             rep.violation(Finding(
                 "FWD", where, construct,
                 "%s has the option `%s` and calls %s, which has the same option with a default, without passing it on (%s): that part of the work ignores what the "
                 "caller asked for" % (where, p, t.qualname, src(call, 70)), loc(prog, call)))
-    rep.ob("FWD", "%d call sites with a same-named defaulted option examined" % n, "holds" if not any(f_.rule == "FWD" for f_ in rep.findings) else "violation", "", "")
+    return n
